@@ -48,7 +48,7 @@ def feature_on(p, adt):
 
 
 def run(ctx):
-    for cfg in (["default"] if ctx.tier == "quick" else ["default", "release", "full", "single:config_parsing,console_appender"]):
+    for cfg in (["default", "full"] if ctx.tier == "quick" else ["default", "release", "full", "single:config_parsing,console_appender"]):
         p = ctx.prog(cfg)
         if "config_parsing" not in p.meta.get("features", []):
             continue
@@ -113,6 +113,40 @@ def rule_file_append_default(ctx, p, cfg, rid, which="file"):
             b, fd = builder_fields("append::rolling_file::RollingFileAppender::builder")
             r.require(fd.get("append") == ("const", "bool", True), "rolling-append-default-true", fn=b, detail="RollingFileAppender::builder(): %s" % {k: show(v) for k, v in fd.items()})
             overridden_only_on_some(r, p, "<append::rolling_file::RollingFileAppenderDeserializer as config::raw::Deserialize>::deserialize", "append::rolling_file::RollingFileAppenderBuilder::append", "append", "rolling-append")
+
+
+def rule_whole_document_parsers(r, p):
+    """each file format is parsed by the format crate's from_str on the whole source: those entry points reject trailing
+    characters and partial documents; a hand-driven Deserializer does not"""
+    g = p.fn("config::file::Format::parse")
+    parsers = {"Yaml": "serde_yaml::de::from_str", "Json": "serde_json::de::from_str", "Toml": "toml::de::from_str"}
+    fa = p.adt("config::file::Format")
+    variants = [v["name"] for v in fa["variants"]]
+    if not variants:
+        r.ok("no-format-compiled", fn=g, detail="no file format feature is enabled in this configuration: Format has no variants")
+    elif len(variants) == 1:
+        cs = [c.callee for c in g.calls() if (c.callee or "").endswith("::from_str")]
+        r.require(cs == [parsers[variants[0]]], "parser:%s" % variants[0], fn=g, detail="Format::%s parses with %s" % (variants[0], cs))
+    else:
+        si = None
+        for blk in g.blocks:
+            if blk["term"]["k"] == "switch" and blk["id"] in g.reachable_blocks():
+                s2 = SwitchInfo(g, blk["id"])
+                if strip(s2.discr)[0] == "discr" and deep_strip(strip(s2.discr)[1]) == ("param", 1):
+                    si = s2
+        if si is None:
+            raise ShapeUnrecognised("Format::parse does not match on self")
+        for v in variants:
+            t = si.target_of(v)
+            reg = g.reach(t, include_src=True)
+            for v2 in variants:
+                if v2 != v:
+                    reg = reg - g.reach(si.target_of(v2), include_src=True)
+            cs = [c.callee for c in g.calls() if c.block in reg and (c.callee or "").endswith("::from_str")]
+            r.require(cs == [parsers[v]], "parser:%s" % v, fn=g, detail="Format::%s parses with %s" % (v, cs))
+    for c in g.calls():
+        if (c.callee or "").endswith("::from_str"):
+            r.require(deep_strip(c.arg(0)) == ("param", 2), "parses-the-source:%s" % common.role(c), fn=g, detail="parser input is the source text")
 
 
 def run_cfg(ctx, p, cfg):
@@ -194,6 +228,9 @@ def run_cfg(ctx, p, cfg):
             overridden_only_on_some(r, p, "<append::rolling_file::policy::compound::roll::fixed_window::FixedWindowRollerDeserializer as config::raw::Deserialize>::deserialize",
                                     "append::rolling_file::policy::compound::roll::fixed_window::FixedWindowRollerBuilder::base", "base", "roller-base")
 
+    if "size_trigger" in feats or "time_trigger" in feats:
+        from rules import c20
+        c20.rule_integer_forms(ctx, p, cfg, "K2b")   # the same document in YAML/JSON (u64) and TOML (i64) gives the same limit
     with ctx.rule("K3", "registry", cfg) as r:
         d = p.fn("<config::raw::Deserializers as core::default::Default>::default")
         ins = d.calls("config::raw::Deserializers::insert")
@@ -375,35 +412,7 @@ def run_cfg(ctx, p, cfg):
             exp = v if feat in feats else err
             r.require(gotv == {exp}, "ext:%s" % ext, fn=f, detail="extension %r -> %s (expected %s)" % (ext, sorted(gotv), exp))
         r.require(set(tab) == set(want), "no-other-extensions", fn=f, detail="extensions recognised: %s" % sorted(tab))
-        g = p.fn("config::file::Format::parse")
-        parsers = {"Yaml": "serde_yaml::de::from_str", "Json": "serde_json::de::from_str", "Toml": "toml::de::from_str"}
-        fa = p.adt("config::file::Format")
-        variants = [v["name"] for v in fa["variants"]]
-        if not variants:
-            r.ok("no-format-compiled", fn=g, detail="no file format feature is enabled in this configuration: Format has no variants")
-        elif len(variants) == 1:
-            cs = [c.callee for c in g.calls() if (c.callee or "").endswith("::from_str")]
-            r.require(cs == [parsers[variants[0]]], "parser:%s" % variants[0], fn=g, detail="Format::%s parses with %s" % (variants[0], cs))
-        else:
-            si = None
-            for blk in g.blocks:
-                if blk["term"]["k"] == "switch" and blk["id"] in g.reachable_blocks():
-                    s2 = SwitchInfo(g, blk["id"])
-                    if strip(s2.discr)[0] == "discr" and deep_strip(strip(s2.discr)[1]) == ("param", 1):
-                        si = s2
-            if si is None:
-                raise ShapeUnrecognised("Format::parse does not match on self")
-            for v in variants:
-                t = si.target_of(v)
-                reg = g.reach(t, include_src=True)
-                for v2 in variants:
-                    if v2 != v:
-                        reg = reg - g.reach(si.target_of(v2), include_src=True)
-                cs = [c.callee for c in g.calls() if c.block in reg and (c.callee or "").endswith("::from_str")]
-                r.require(cs == [parsers[v]], "parser:%s" % v, fn=g, detail="Format::%s parses with %s" % (v, cs))
-        for c in g.calls():
-            if (c.callee or "").endswith("::from_str"):
-                r.require(deep_strip(c.arg(0)) == ("param", 2), "parses-the-source:%s" % common.role(c), fn=g, detail="parser input is the source text")
+        rule_whole_document_parsers(r, p)
 
     with ctx.rule("K7", "meaning preserved", cfg) as r:
         f = p.fn("config::raw::RawConfig::root")
